@@ -439,4 +439,13 @@ theorem leaf_counts_nonzero :
     (simpleEx.declaredAt [1, 1, 0, 1]).length = 2 ∧ simpleEx.unreferencedAt [1, 1, 0, 1] = ["43"] ∧
     (elided.declaredAt [0, 1]).length = 2 ∧ elided.unreferencedAt [0, 1] = ["b9"] := by decide +kernel
 
+/-- non-vacuity of `C06_gained_count_is_the_history`: in the repository's fixture one family starts strictly below the root
+    (at [1]) and has one lineage there; in the second witness two such lineages cross [0, 2]; families that reach `a` count 0 -/
+theorem gained_counts_nonzero :
+    simpleTree.isInternalAt [1] = true ∧
+    (simpleEx.fams.map fun f => if f.1.isSuffixOf [] then 0 else lineagesAt [1] f.1 f.2).sum = 1 ∧
+    (simpleEx.fams.map fun f => if f.1.isSuffixOf [1] then 0 else lineagesAt [0, 1] f.1 f.2).sum = 0 ∧
+    elided.T.isInternalAt [0, 2] = true ∧
+    (elided.fams.map fun f => if f.1.isSuffixOf [] then 0 else lineagesAt [0, 2] f.1 f.2).sum = 2 := by decide +kernel
+
 end Pyham.Witness
